@@ -40,6 +40,35 @@ def check(ctx):
     # the signing serialisation writes each input through Input.serialize_to (an EMPTY alternate script, not "no alternate script", for the inputs that
     # are not being signed) and over the outputs as they are now: the Input/Output writers and the cache discipline are C05's rule instances
     R.share(ctx, "C05", {"C05-D1": "C04-D5", "C05-D3/CACHE": "C04-D5/CACHE"})
+    # a legacy (v1) channel signature commits to the ADDRESS of the output that holds the claim: prefix ‖ hash160 ‖ checksum in Base58 — C06's rule instances
+    R.share(ctx, "C06", {"C06-D3": "C04-D6"})
+    key_dispatch(ctx, prog)
+
+
+def key_dispatch(ctx, prog):
+    """the key an input is signed with is the key of the address that holds the spent output: the account asks the address manager of the
+    output's own chain, so that every kind of manager (hierarchical: child key; single-key: the account key) answers for its own addresses"""
+    A = "lbry.wallet.account"
+    for meth in ("get_private_key", "get_public_key"):
+        fa = ctx.fa(f"{A}.Account.{meth}")
+        ch, ix = fa.fi.params()[1:3]
+        rets = fa.stmts(ast.Return)
+        ok = bool(rets) and all(unparse(r.value) == f"self.address_managers[{ch}].{meth}({ix})" for r in rets)
+        ctx.ob("C04-D6/DISPATCH", ok, fa.site(), f"Account.{meth}(chain, index) is answered by address_managers[chain].{meth}(index) — never derived around the manager", func=fa.fi.qualname,
+               key=f"C04-D6/DISPATCH|{meth}")
+    sk = ctx.fa(f"{A}.SingleKey.get_private_key")
+    r = R.single_return_value(sk)
+    ctx.ob("C04-D6/DISPATCH", r is not None and unparse(r.value) == "self.account.private_key", sk.site(), "a single-key manager answers with the account's own key", func=sk.fi.qualname)
+    hd = ctx.fa(f"{A}.HierarchicalDeterministic.get_private_key")
+    r = R.single_return_value(hd)
+    ix = hd.fi.params()[1]
+    ctx.ob("C04-D6/DISPATCH", r is not None and unparse(r.value) == f"self.account.private_key.child(self.chain_number).child({ix})", hd.site(),
+           "a hierarchical manager answers with account key / chain / index", func=hd.fi.qualname)
+    gk = ctx.fa("lbry.wallet.ledger.Ledger.get_private_key_for_address")
+    rets = [r for r in gk.stmts(ast.Return) if r.value is not None and not is_const(r.value, None)]
+    ok = bool(rets) and all(call_name(r.value) == "get_private_key" for r in rets if isinstance(r.value, ast.Call)) and all(isinstance(r.value, ast.Call) for r in rets) and \
+        all(unparse(r.value) == "account.get_private_key(address_info['chain'], address_info['pubkey'].n)" for r in rets)
+    ctx.ob("C04-D6/DISPATCH", ok, gk.site(), "the ledger's key lookup returns the account's get_private_key(chain, index) of the matched address row", func=gk.fi.qualname)
 
 
 def input_binding(ctx, prog):
